@@ -222,6 +222,9 @@ def run(tier, seed, replay=None):
                                            "program": text, "signature_text": text})
     finally:
         jail.close()
+    # a word with a quoted or escaped "=" (or name) is not an assignment for bash: it is the program name
+    for text in ["'X=1' ls", '"X=1" ls', "X'=1' ls", "X\\=1 ls", "'X'=1 ls", "X=1 ls", "X='1' ls"]:
+        judge_text(text, "quoted-assignment-word", must_not_allow=text not in ("X=1 ls", "X='1' ls"))
     for text in ["", " ", "\t\n", "\n\n", ";", ";;", "&", "|", "&&", "(", ")", "{", "}", "((", "[[", "if", "then", "fi", "do", "done", "esac",
                  "'", '"', "`", "$(", "${", "$((", "<", ">", "<<", "<<<", "\\", "#", "!", "ls |", "ls &&", "ls ||", "if ls", "while ls; do",
                  "for x in", "case x in", "ls )", "( ls", "{ ls", "ls }", "echo $(", "echo ${x", "echo `ls", "cat <<EOF", "fn() {", "[[ -f x",
